@@ -559,20 +559,24 @@ def parseNumber (cs : List Char) : Option Rat :=
 
 def isWord (cs : List Char) (w : String) : Bool := cs.map lower == w.toList
 
-/-- `<f64 as FromStr>::from_str` (core/num/dec2flt): `Sign? ('inf' | 'infinity' | 'nan' | Number)`,
-letters case-insensitive, no surrounding whitespace. -/
+/-- `Sign?` -/
+def splitSign : List Char → Bool × List Char
+  | '-' :: r => (true, r)
+  | '+' :: r => (false, r)
+  | cs => (false, cs)
+
+/-- `<f64 as FromStr>::from_str` (core/num/dec2flt/mod.rs `dec2flt`): `Sign? (Number | 'inf' |
+'infinity' | 'nan')`, letters case-insensitive, no surrounding whitespace; the number is tried
+first, the words only when it fails (`parse_number` then `parse_inf_nan`). -/
 def parseF64Str (sem : FloatSem) (cs : List Char) : Except String F64 :=
   if cs.isEmpty then .error eFloatEmpty else
-  let (neg, body) : Bool × List Char :=
-    match cs with
-    | '-' :: r => (true, r)
-    | '+' :: r => (false, r)
-    | _ => (false, cs)
-  if isWord body "inf" || isWord body "infinity" then .ok (.inf neg)
-  else if isWord body "nan" then .ok .nan
-  else match parseNumber body with
-    | none => .error eFloatInvalid
-    | some q => .ok (sem.round (if neg then -q else q))
+  let (neg, body) := splitSign cs
+  match parseNumber body with
+  | some q => .ok (sem.round (if neg then -q else q))
+  | none =>
+    if isWord body "inf" || isWord body "infinity" then .ok (.inf neg)
+    else if isWord body "nan" then .ok .nan
+    else .error eFloatInvalid
 
 /-- `f64 as u64`: truncation towards zero, saturating; `NaN` ⇒ `0`. -/
 def f64AsU64 : F64 → Nat
